@@ -196,12 +196,9 @@ func contentsOf(cl *simCluster, node uint64, ds uuid.UUID) (string, bool) {
 	}
 	m := map[int]crefItem{}
 	for pi := 0; pi < d.VerifPartitionCount(); pi++ {
-		dump := d.VerifPartitionAt(pi).Index().VerifDump()
-		for _, v := range dump.Vertices {
-			if v.Deleted {
-				continue
-			}
-			m[idn(v.Id)] = crefItem{int(v.Vector[0]), v.Metadata}
+		// (the partition may be replaying its log while this runs: the listing takes the shard locks)
+		for _, v := range d.VerifPartitionAt(pi).Index().VerifContents() {
+			m[int(v.Id[0])|int(v.Id[1])<<8] = crefItem{int(v.Vector[0]), v.Metadata}
 		}
 	}
 	return refText(m), true
